@@ -1,7 +1,7 @@
 """C16 — hydroelastic forces: action-reaction, symmetry, frames (structural clauses)."""
 from . import scopes
 from ..core.report import DOMAIN_D
-from ..rules import generic2, eager, hydro, frame, sides, unpack, misc2
+from ..rules import aabbtree, generic2, eager, hydro, frame, sides, unpack, misc2
 from .common import e1, e2
 
 HY = "distance3d.hydroelastic_contact."
@@ -29,9 +29,11 @@ def run(idx, rep, tier):
     mods = None        # the property scope (sa/props/scopes.py) selects the functions
     eager.r_attr(idx, rep, it, modules=mods, floor=10)
     misc2.r_dupcond(idx, rep, [m.name for m in idx.lib_modules()], floor=3)
+    aabbtree.r_bruteforce(idx, rep)      # the brute-force broad phase is the reference the tree queries are interchangeable with
     generic2.r_indextruth(idx, rep, [m.name for m in idx.lib_modules()], floor=15)
     misc2.r_stiffness(idx, rep)
     misc2.r_stiffness_chain(idx, rep)
     hydro.r_contactforce(idx, rep)
+    hydro.r_allfaces(idx, rep)
     hydro.r_hpcover(idx, rep)      # a polygon that is not clipped by one half-plane leaves its tetrahedron and over-estimates the force on one side only
     unpack.r_unpack(idx, rep, floor=14)
